@@ -19,4 +19,25 @@
     __CPROVER_loop_invariant((i) > 0 ==> (g_ui_lo == distribution.lo && g_ui_hi == distribution.hi)) \
     __CPROVER_decreases(result->params->n - i)
 extern int32_t g_k;
+/* tfhe_createLweBootstrappingKey: loop over the n key bits (monitor tGswSymEncryptInt counts, checks order and arguments) */
+#define LOOP_tfhe_createLweBootstrappingKey_0(i) \
+    __CPROVER_assigns(i, n_enc, n_enc_watched, bad, last_idx) \
+    __CPROVER_loop_invariant(0 <= i && i <= n && bad == 0 && n_enc == i && last_idx == i - 1) \
+    __CPROVER_loop_invariant(n_enc_watched == ((i) > g_i ? 1 : 0)) \
+    __CPROVER_decreases(n - i)
+/* tLweSymEncryptZero: N gaussian coefficients, then k (uniform, multiply-accumulate) pairs */
+#define LOOP_tLweSymEncryptZero_0(j) \
+    __CPROVER_assigns(j, __CPROVER_object_whole(result->b->coefsT), n_g, bad) \
+    __CPROVER_loop_invariant(0 <= j && j <= N && bad == 0 && n_g == j) \
+    __CPROVER_decreases(N - j)
+#define LOOP_tLweSymEncryptZero_1(i) \
+    __CPROVER_assigns(i, n_u, n_m, bad) \
+    __CPROVER_loop_invariant(0 <= i && i <= k && bad == 0 && n_u == i && n_m == i) \
+    __CPROVER_decreases(k - i)
+/* tGswEncryptZero: loop over the kpl rows */
+#define LOOP_tGswEncryptZero_0(p) \
+    __CPROVER_assigns(p, n_calls, n_watched, bad, last) \
+    __CPROVER_loop_invariant(0 <= p && p <= kpl && bad == 0 && n_calls == p && last == p - 1) \
+    __CPROVER_loop_invariant(n_watched == ((p) > g_i ? 1 : 0)) \
+    __CPROVER_decreases(kpl - p)
 #endif
